@@ -28,6 +28,7 @@ Proof.
   - cbn. destruct (is_atomic_type s); reflexivity.
   - cbn [dec_base].
     apply rbind_np'; [apply f_string_np|intros].
+    apply rbind_np'; [destruct (is_atomic_type _); reflexivity|intros].
     apply rbind_np'; [apply dec_enum_np|intros].
     apply rbind_np'; [apply f_pfloat_np|intros].
     apply rbind_np'; [apply f_pfloat_np|intros].
@@ -71,17 +72,20 @@ Proof.
 Qed.
 
 (** Round trips *)
+Lemma atomic_type_cases ty : is_atomic_type ty = true ->
+  ty = s_integer \/ ty = s_real \/ ty = s_boolean \/ ty = s_string \/ ty = s_uuid.
+Proof.
+  unfold is_atomic_type. rewrite !orb_true_iff, !N.eqb_eq. tauto.
+Qed.
+
 Theorem base_roundtrip b : wf_base b = true -> dec_base (enc_base b) = Ok b.
 Proof.
-  destruct b as [ty en minR maxR minI maxI minL maxL rt ry]. unfold wf_base. cbn [wb_enum].
-  intros Hen.
+  destruct b as [ty en minR maxR minI maxI minL maxL rt ry]. unfold wf_base. cbn [wb_enum wb_type].
+  intros Hwf. apply andb_prop in Hwf as [Hen Hat].
   unfold enc_base, dec_base. cbn [wb_type wb_enum wb_minReal wb_maxReal wb_minInt wb_maxInt wb_minLen wb_maxLen wb_refTable wb_refType].
-  destruct (N.eqb_spec ty s_empty) as [->|Hne].
-  - destruct en as [[|e1 [|e2 er]]|]; try discriminate;
+  destruct (atomic_type_cases ty Hat) as [->|[->|[->|[->| ->]]]];
+    (destruct en as [[|e1 [|e2 er]]|]; try discriminate;
       [destruct e1; try discriminate| |];
-      destruct minR as [[? ?]|], maxR as [[? ?]|], minI, maxI, minL, maxL, rt, ry; reflexivity.
-  - destruct en as [[|e1 [|e2 er]]|]; try discriminate;
-      [destruct e1; try discriminate| |];
-      destruct minR as [[? ?]|], maxR as [[? ?]|], minI, maxI, minL, maxL, rt, ry; reflexivity.
+      destruct minR as [[? ?]|], maxR as [[? ?]|], minI, maxI, minL, maxL, rt, ry; reflexivity).
 Qed.
 
